@@ -72,6 +72,7 @@ func NewShared(prog *ssa.Program) *Shared {
 	registerFiles(sh.intr)
 	registerAlias(sh.intr)
 	registerJSONBox(sh.intr)
+	registerProtoBox(sh.intr)
 	if p := prog.ImportedPackage("errors"); p != nil {
 		sh.errorsNew = p.Func("New")
 	}
